@@ -517,3 +517,188 @@ def loop_env(lp: Optional[ast.AST]) -> Dict[str, ast.expr]:
                 mutated.add(r.id)
     return {k: v for k, v in env.items() if cnt[k] == 1 and k not in mutated
             and not any(isinstance(x, ast.Call) and not _pure_call(x) for x in ast.walk(v))}
+
+
+# -- helper inlining ("extract method" robustness) ------------------------------------------------------------
+
+KEEP_CALLS = {"_reconcile_consumed_ram", "_run_out_of_memory_killer", "_mark_completed", "_parse_row", "_pipeline_to_rows", "_parse_assignments",
+              "_parse_suspensions", "_tick_generator", "_sensitivity_task"}
+
+
+def _callers_of(P: Program, name: str) -> int:
+    n = 0
+    for m in P.real_modules():
+        for x in ast.walk(m.tree):
+            if isinstance(x, ast.Call) and norm.call_name(x) == name:
+                n += 1
+    return n
+
+
+def _inlinable(P: Program, f: Func, c: ast.Call) -> Optional[Func]:
+    """A same-class private method (self._m(...)) or same-module private function (_f(...)) with a single call site in the
+    package, positional/keyword arguments only, and `return` only as its last statement."""
+    fn = c.func
+    target: Optional[Func] = None
+    if isinstance(fn, ast.Attribute) and norm.is_name(fn.value, "self") and f.cls:
+        cl = f.mod.classes.get(f.cls)
+        if cl and fn.attr in cl.methods:
+            target = cl.methods[fn.attr]
+    elif isinstance(fn, ast.Name) and fn.id in f.mod.funcs and "." not in fn.id:
+        target = f.mod.funcs[fn.id]
+    if target is None or target.node is f.node:
+        return None
+    if not target.name.startswith("_") or target.name.startswith("__"):
+        return None
+    if target.name in KEEP_CALLS:
+        return None   # rules anchor on calls of these helpers by name
+    if any(isinstance(x, ast.Starred) for x in c.args) or any(k.arg is None for k in c.keywords):
+        return None
+    a = target.node.args
+    if a.vararg or a.kwarg or a.kwonlyargs or target.decorators():
+        return None
+    body = target.node.body
+    rets = [x for x in own_nodes(target.node) if isinstance(x, ast.Return)]
+    if any(r is not body[-1] for r in rets):
+        return None
+    if any(isinstance(x, (ast.Yield, ast.YieldFrom, ast.Global, ast.Nonlocal)) for x in own_nodes(target.node)):
+        return None
+    return target
+
+
+def _instantiate(target: Func, c: ast.Call, tag: str) -> Tuple[List[ast.stmt], Optional[ast.expr]]:
+    """Body of target with parameters replaced by the call's arguments and locals renamed; -> (statements, returned expr)."""
+    params = target.params()
+    env: Dict[str, ast.expr] = {}
+    args = list(c.args)
+    if isinstance(c.func, ast.Attribute):
+        env[params[0]] = c.func.value   # self
+        params = params[1:]
+    defaults = target.node.args.defaults
+    dmap = dict(zip(target.node.args.args[len(target.node.args.args) - len(defaults):], defaults)) if defaults else {}
+    for i, p_ in enumerate(params):
+        if i < len(args):
+            env[p_] = args[i]
+    for k in c.keywords:
+        env[k.arg] = k.value
+    for a_, d_ in dmap.items():
+        if a_.arg not in env:
+            env[a_.arg] = d_
+    body = [norm.clone(s) for s in target.node.body if not (isinstance(s, ast.Expr) and isinstance(s.value, ast.Constant) and isinstance(s.value.value, str))]
+    # rename locals (Store-bound names that are not parameters)
+    bound = set()
+    for s in body:
+        for x in ast.walk(s):
+            if isinstance(x, ast.Name) and isinstance(x.ctx, ast.Store):
+                bound.add(x.id)
+    bound -= set(env)
+    ret = None
+    out = []
+    for s in body:
+        for x in ast.walk(s):
+            if isinstance(x, ast.Name) and x.id in bound:
+                x.id = f"{x.id}__{tag}"
+        s = norm.Subst({k: v for k, v in env.items()}).visit(s)
+        if isinstance(s, ast.Return):
+            ret = s.value
+            continue
+        out.append(s)
+    return out, ret
+
+
+_INLINE_CACHE: Dict[Tuple[int, int], Func] = {}
+
+
+def inline_helpers(P: Program, f: Func, depth: int = 2) -> Func:
+    k = (id(P), id(f.node))
+    if k not in _INLINE_CACHE:
+        _INLINE_CACHE[k] = _inline_helpers(P, f, depth)
+    return _INLINE_CACHE[k]
+
+
+def _inline_helpers(P: Program, f: Func, depth: int = 2) -> Func:
+    """A copy of f in which statement-level calls of single-use private helpers are replaced by the helper's body.
+    Recognised call positions:  `self._m(...)` / `_f(...)` as a statement,  `x = <call>`,  `return <call>`."""
+    changed_any = False
+    node = norm.clone(f.node)
+    counter = [0]
+
+    def expand(stmts: List[ast.stmt], d: int) -> List[ast.stmt]:
+        nonlocal changed_any
+        out: List[ast.stmt] = []
+        for st in stmts:
+            call = None
+            kind = None
+            if isinstance(st, ast.Expr) and isinstance(st.value, ast.Call):
+                call, kind = st.value, "expr"
+            elif isinstance(st, ast.Assign) and len(st.targets) == 1 and isinstance(st.value, ast.Call):
+                call, kind = st.value, "assign"
+            elif isinstance(st, ast.Return) and isinstance(st.value, ast.Call):
+                call, kind = st.value, "return"
+            target = _inlinable(P, f, call) if (call is not None and d > 0) else None
+            if target is not None:
+                counter[0] += 1
+                body, ret = _instantiate(target, call, f"i{counter[0]}")
+                body = expand(body, d - 1)
+                for b in body:
+                    ast.copy_location(b, b if hasattr(b, "lineno") else st)
+                out.extend(body)
+                if kind == "assign":
+                    out.append(ast.copy_location(ast.Assign(targets=st.targets, value=ret if ret is not None else ast.Constant(None)), st))
+                elif kind == "return":
+                    out.append(ast.copy_location(ast.Return(value=ret), st))
+                changed_any = True
+                continue
+            for fld in ("body", "orelse", "finalbody"):
+                b = getattr(st, fld, None)
+                if isinstance(b, list) and b and isinstance(b[0], ast.stmt):
+                    setattr(st, fld, expand(b, d))
+            if isinstance(st, ast.Try):
+                for h in st.handlers:
+                    h.body = expand(h.body, d)
+            out.append(st)
+        return out
+
+    node.body = expand(node.body, depth)
+    if not changed_any:
+        return f
+    ast.fix_missing_locations(node)
+    for n in ast.walk(node):
+        for ch in ast.iter_child_nodes(n):
+            ch._parent = n  # type: ignore[attr-defined]
+    node._parent = getattr(f.node, "_parent", None)  # type: ignore[attr-defined]
+    g = Func(f.mod, f.qual, node, f.cls)
+    g.inlined = True  # type: ignore[attr-defined]
+    return g
+
+
+def private_closure(P: Program, f: Func, depth: int = 3) -> Set[str]:
+    """Qualified names of f and of the single-use private helpers it (transitively) inlines."""
+    out = {f.qual}
+    work = [(f, depth)]
+    cand: Dict[str, Func] = {}
+    while work:
+        g, d = work.pop()
+        if d <= 0:
+            continue
+        for c in own_nodes(g.node):
+            if isinstance(c, ast.Call):
+                t = _inlinable(P, g, c)
+                if t is not None and t.qual not in out:
+                    out.add(t.qual)
+                    cand[t.qual] = t
+                    work.append((t, d - 1))
+    # a helper belongs to the closure only if every call site of it in the package lies inside the closure
+    changed = True
+    while changed:
+        changed = False
+        for q, t in list(cand.items()):
+            if q not in out:
+                continue
+            for m in P.real_modules():
+                for g in m.funcs.values():
+                    if g.qual in out and g.mod is t.mod:
+                        continue
+                    if any(isinstance(x, ast.Call) and norm.call_name(x) == t.name for x in own_nodes(g.node)):
+                        out.discard(q)
+                        changed = True
+    return out
